@@ -36,7 +36,7 @@ ASSUMPTIONS = [
     "(central differences exact, so the global step of the joint slope is immaterial)",
     "sources are data-referenced; configurations with a non positive definite or ill-conditioned covariance (cond > 1e8 per member, > 1e6 joint: "
     "solving with the joint matrix loses cond*eps relative accuracy) are discarded and counted",
-    "OPTIM tolerances: |p - p_ref| <= 1e-2 sigma (iminuit) / 5e-2 sigma (scipy), cost 1e-3 / 5e-3, covariance 2e-3 (scipy) / max(2e-3, 2e-8 cond) (iminuit HESSE); "
+    "OPTIM tolerances: |p - p_ref| <= 1e-2 sigma (iminuit) / 5e-2 sigma (scipy), cost 1e-3 / 5e-3, covariance 2e-3 (scipy) / max(5e-3, 5e-8 cond) (iminuit HESSE); "
     "twin comparison (two minimisations of the same problem, same backend): parameter shifts in units of the twin's sigma, errors / covariance within 5e-2 (HESSE re-run at the identical minimum scatters by 2 %)",
     "bookkeeping (value identity, sub-blocks of the result, mirrored fixed flags) is compared EXACTLY",
     "MultiFit accepts the axis of a shared source only as 'x' / 'y' / None; other spellings are not generated (C14 covers equivalent spellings)",
@@ -779,7 +779,7 @@ def check_after_fit(W, where, asym):
 
 def optim_tols(minimizer, cond):
     ptol, ctol_cost = (1e-2, 1e-3) if minimizer == "iminuit" else (5e-2, 5e-3)
-    ctol = 2e-3 if minimizer == "scipy" else max(2e-3, 2e-8 * cond)
+    ctol = 2e-3 if minimizer == "scipy" else max(5e-3, 5e-8 * cond)
     return ptol, ctol_cost, ctol
 
 
@@ -993,6 +993,22 @@ def run_twin(W, twin):
         # HESSE of the *same* fit object re-fitted at the identical minimum scatters by 2 % in weakly constrained problems (observed
         # 3.445 vs 3.515 on a Poisson parabola with cond(C) = 3.5e3), so the twin's uncertainties are compared within 5 %
         etol = 5e-2
+        ca0 = twin.fit.parameter_cov_mat
+        if ca0 is not None:
+            # HESSE (finite differences inside Minuit2) loses accuracy in proportion to the condition number of the problem
+            # (checks/c05.py: observed 2.4e-2 at cond 6e6; here 24 % at a much larger one): same rule as C05, on the correlation matrix
+            try:
+                _c = np.array(ca0, dtype=float)
+                _free = np.diag(_c) > 0
+                _cc = _c[np.ix_(_free, _free)]
+                _d = np.sqrt(np.diag(_cc))
+                _cond = float(np.linalg.cond(_cc / np.outer(_d, _d))) if _cc.size else 1.0
+            except Exception:
+                _cond = float("inf")
+            if not np.isfinite(_cond) or _cond > 1e6:
+                ctx.discard("twin-problem-ill-conditioned")
+                return check_all(W, "after twin do_fit (ill-conditioned: uncertainties not compared)") if read_values(W) else False
+            etol = max(5e-2, 2e-5 * _cond) if mz == "iminuit" else 5e-2
         ctx.check("single.parameter_errors", bool(np.all(np.abs(sm - sa) <= etol * sa)), lambda: {"got": sm, "expected": sa, "tolerance": etol})
         ca, cm = twin.fit.parameter_cov_mat, multi.parameter_cov_mat
         if ca is not None and cm is not None:
